@@ -2,7 +2,7 @@ from pyvc.cbase import Registry
 
 
 def build_registry():
-    from . import externs, expect, spawnbase, screen, ansi, utils, transports, lifecycle, readpath, pxssh, run, replwrap
+    from . import externs, expect, spawnbase, screen, ansi, utils, transports, lifecycle, readpath, pxssh, run, replwrap, aio
     reg = Registry()
     externs.register(reg)
     spawnbase.register(reg)
@@ -16,4 +16,5 @@ def build_registry():
     pxssh.register(reg)
     run.register(reg)
     replwrap.register(reg)
+    aio.register(reg)
     return reg
